@@ -3,6 +3,7 @@
 Explorer (P), full product: 8 types x empty flag x length declaration x allowed characters x
 format x guard-oriented cells.  Oracle: guards() of mc/models/fieldmodel.py, then the C02 models.
 """
+import io
 import itertools
 
 from mc import engine, harness
@@ -82,7 +83,7 @@ def cells_for(decl, payload, allowed_name, tier="quick"):
         cells += variants + [payload[:2], payload + payload]
     if allowed_name != "none":
         # characters outside the allowed range; whitespace-like ones matter because fixed cells are stripped
-        bad_characters = [OUTSIDE["ascii"], "\xa0", "\u2003"] if allowed_name == "ascii" else [OUTSIDE["alphabet"], "\t", "\xa0", "\x0c", "\n", "\r"]
+        bad_characters = [OUTSIDE["ascii"], "\xa0", "\u2003", "\x00"] if allowed_name == "ascii" else [OUTSIDE["alphabet"], "\t", "\xa0", "\x0c", "\n", "\r", "\x00"]
         if allowed_name == "alphabet-without-blank":
             bad_characters.append(" ")
         if tier == "thorough":
@@ -154,7 +155,7 @@ def judge(case, part):
                 # in the CID the allowed range is written with quoted characters where its limits are letters or digits
                 rows = harness.cid_rows(decl["preset"], [decl], allowed=decl.get("allowed"), line_delimiter="lf", allowed_quoted=True, allowed_after_fields=allowed_after_fields)
                 cid = harness.make_cid(rows)
-                text, usable = c02.data_text(decl, [c for c in case["cells"] if not any(ch in c for ch in "\x0b\x0c\x1c\x1d\x1e\x85\u2028\u2029\x00")])
+                text, usable = c02.data_text(decl, [c for c in case["cells"] if not any(ch in c for ch in "\x0b\x0c\x1c\x1d\x1e\x85\u2028\u2029")])
                 events = list(cutplace.rows(cid, harness.NamedStringIO(text, "guards.txt"), on_error="yield"))
             except Exception as error:
                 part.fail(tag % ("%s-raised-%s" % (where, type(error).__name__)), case, "rows readable", repr(error))
@@ -174,6 +175,39 @@ def judge(case, part):
                     part.fail(tag % ("%s expected=%s observed=%s" % (where, expected, observed)), narrowed, expected, str(event))
                 elif observed == "reject" and ("'%s'" % decl["name"]) not in str(event):
                     part.fail(tag % (where + " error does not name the field"), narrowed, decl["name"], str(event))
+        # and written through the validating Writer behind one header row (fixed data without line delimiter): the guards are the same
+        try:
+            verdicts = observe_via_writer(decl, usable)
+        except Exception as error:
+            part.fail(tag % ("writer-path-raised-" + type(error).__name__), case, "rows written or rejected", repr(error))
+            return
+        part.transitions += len(usable)
+        for cell, observed in zip(usable, verdicts):
+            expected, _ = fieldmodel.validate(decl, cell.ljust(decl["width"]) if decl["fmt"] == "fixed" else cell)
+            if expected is None:
+                continue
+            part.validated += 1
+            if observed != expected:
+                part.fail(tag % ("writer-path expected=%s observed=%s" % (expected, observed)), {"decl": case["decl"], "cells": [cell], "path": "writer"}, expected, observed)
+
+
+def observe_via_writer(decl, cells):
+    """The cells written one per row through cutplace.Writer under a CID with one header row (fixed data: without line delimiter). -> verdict per cell"""
+    import cutplace
+
+    m = harness.modules()
+    fixed = decl["fmt"] == "fixed"
+    rows = harness.cid_rows(decl["preset"], [decl], header=1, allowed=decl.get("allowed"), line_delimiter="none" if fixed else "lf")
+    writer = cutplace.Writer(harness.make_cid(rows), io.StringIO(newline=""))
+    writer.write_row(["h"])
+    verdicts = []
+    for cell in cells:
+        try:
+            writer.write_row([cell])
+            verdicts.append("accept")
+        except m["errors"].DataError:
+            verdicts.append("reject")
+    return verdicts
 
 
 def all_cases(tier="quick"):
